@@ -72,7 +72,7 @@ func bump(l *[]KV, k string, d int) {
 			return
 		}
 	}
-	*l = append(*l, KV{k, d})
+	*l = push(*l, KV{k, d})
 }
 
 // Fault counts a fault that actually fired (not merely configured) and makes
@@ -106,8 +106,10 @@ func (rc *RunCtx) ProbeN(name string, n int) {
 //
 //go:norace
 func (rc *RunCtx) Knob(k string, v any) {
+	// fmt has internal synchronisation (sync.Pool): never call it hidden
+	val := fmt.Sprint(v)
 	rc.s.lock()
-	rc.knobs = append(rc.knobs, KS{k, fmt.Sprint(v)})
+	rc.knobs = push(rc.knobs, KS{k, val})
 	rc.s.unlock()
 }
 
@@ -146,17 +148,16 @@ func (rc *RunCtx) State(parts ...uint64) {
 	if lo < len(rc.states) && rc.states[lo] == h {
 		return
 	}
-	rc.states = append(rc.states, 0)
-	copy(rc.states[lo+1:], rc.states[lo:])
-	rc.states[lo] = h
+	rc.states = insertAt(rc.states, lo, h)
 }
 
 // Sample stores a short human-readable description of this run's case.
 //
 //go:norace
 func (rc *RunCtx) Sample(f string, a ...any) {
+	v := fmt.Sprintf(f, a...)
 	rc.s.lock()
-	rc.sample = fmt.Sprintf(f, a...)
+	rc.sample = v
 	rc.s.unlock()
 }
 
